@@ -15,7 +15,7 @@ for resf in sorted(glob.glob('/verif/work/seedres/*.json')):
     dst = '/verif/seeded/%s' % sid
     readme = open(src + '/README.md').read() if os.path.exists(src + '/README.md') else ''
     title = next((l.strip('# ').strip() for l in readme.splitlines() if l.strip()), '')
-    if ok:
+    if ok and (not os.path.exists(dst + '/meta.json') or sid in sys.argv[1:]):   # never overwrite a stored (possibly ported) seed unless named
         shutil.rmtree(dst, ignore_errors=True)
         os.makedirs(dst)
         shutil.copy(src + '/patch.diff', dst + '/patch.diff')
